@@ -524,7 +524,8 @@ pub fn execute_with(c: &SCase, light: bool) -> SRun {
         }
     }
     // Abort: the next terminal event is the aborting error.
-    if let Some(ai) = c.ops.iter().position(|o| matches!(o, Op::Abort)) {
+    // (only if the abort was actually executed: a history cut short by a flush diagnosis is not judged)
+    if let Some(ai) = c.ops.iter().position(|o| matches!(o, Op::Abort)).filter(|_| aborted && !stop_early) {
         let drop_first = c.ops[..ai].iter().any(|o| matches!(o, Op::DropBody));
         let terminal_before = false;
         if !drop_first && it.body.is_some() && !terminal_before {
